@@ -104,6 +104,10 @@ func (n *Net) Pipe(a, b string) (*Conn, *Conn) {
 }
 
 // Out is the direction this end writes to; In the one it reads from.
+// ReadIdle reports whether a Read is waiting on this end with nothing written towards it left unread: whoever reads
+// here has consumed everything the other end has sent so far.
+func (c *Conn) ReadIdle() bool { return c.inRead && c.rd.queued == 0 }
+
 func (c *Conn) Out() *Dir { return c.wr }
 func (c *Conn) In() *Dir  { return c.rd }
 
